@@ -10,6 +10,7 @@ mkdir -p "$D/repo"
 cp -r /repo/src "$D/repo/src"
 ( cd "$D/repo" && patch -p1 -s < "$PATCH" )
 cd /verif
+mkdir -p /verif/.work/mutant/work /verif/.work/mutant/evidence
 for id in "$@"; do
-  PYTHONPATH="$D/repo/src" VERIF_MUTANT=1 ./check "$id" || echo "rc=$? for $id"
+  PYTHONPATH="$D/repo/src" VERIF_MUTANT=1 VERIF_WORK=/verif/.work/mutant/work VERIF_EVID=/verif/.work/mutant/evidence ./check "$id" || echo "rc=$? for $id"
 done
